@@ -1,5 +1,7 @@
 package main
 
+// NOTE: exploration only, not registered in main(); see the comment there.
+
 import (
 	"context"
 	"fmt"
@@ -123,7 +125,7 @@ func fdOne(h *harness.H, c int) bool {
 						errs = append(errs, "read: "+rerr.Error())
 						mu.Unlock()
 					} else if string(b) != string(pick.data) {
-						h.Violation("fdlimit", c, "c09:fdlimit:committed-region-reads-back-differently:live", fmt.Sprintf("region [%d,%d) read back %d bytes, %d were committed", pick.start, pick.end, len(b), len(pick.data)), map[string]any{"max_descriptors": maxFD, "file_size": fileSize})
+						h.Violation("fdlimit", c, "c09:fdlimit:committed-region-reads-back-differently:live", fmt.Sprintf("region [%d,%d) read back %d bytes %q, %d were committed %q", pick.start, pick.end, len(b), trunc(b), len(pick.data), trunc(pick.data)), map[string]any{"max_descriptors": maxFD, "file_size": fileSize})
 					}
 					mu.Lock()
 					order = append(order, fmt.Sprintf("r%d", g))
@@ -197,3 +199,11 @@ func cskitLetters(s string) string {
 	}
 	return string(out)
 }
+
+func trunc(b []byte) string {
+	if len(b) > 120 {
+		return string(b[:120])
+	}
+	return string(b)
+}
+var _ = fdlimit
